@@ -968,7 +968,8 @@ class Splicer:
                 self.insert_after(pos[1], "\n" + text)
         self.sig_clauses(it, key, fs)
         if self.probes and (fs.clauses or fs.loops) and "const fn" not in rs.norm(toks, it.head_lo, body_lo):
-            self.insert_after(body_lo, "\nproof { assert(false); } //@ probe.%s\n" % key.replace(" ", "_"))
+            # after the at-start hints (they invoke trusted axioms: an inconsistent axiom must make the probe verify)
+            self.ins_after.setdefault(body_lo, []).append("\nproof { assert(false); } //@ probe.%s\n" % key.replace(" ", "_"))
             for l in lps:
                 if l.get("spec") is not None:
                     self.insert_after(l["brace"], "\nproof { assert(false); } //@ probe.%s.%s%d\n" % (key.replace(" ", "_"), l["kw"], l["spec"].ordinal))
@@ -1175,6 +1176,20 @@ def process_file(sp, fspec, g):
                 else:
                     sp.attrs(sub.lo, sub.head_lo)
                     chosen.append((sub, None, None))
+            if trait in ("Iterator", "ExactSizeIterator", "DoubleEndedIterator"):
+                # a method of an iterator impl that has no contract (e.g. a new override of a provided method such as
+                # `fold`, `count`, `nth`) changes what the iterator yields without any clause noticing: recorded, and
+                # the properties about iteration become UNDECIDED (tools/check.py)
+                keys_ = {}
+                seen_tmp = dict(seen_keys)
+                specd_, unspecd_ = [], []
+                for sub in inner:
+                    if sub.kind == "fn":
+                        base_ = "%s as %s::%s" % (selfname, trait, sub.name)
+                        (specd_ if any(k_ == base_ or k_.startswith(base_ + "#") for k_ in fspec.fns) else unspecd_).append(base_)
+                if specd_ and unspecd_:
+                    for u_ in unspecd_:
+                        g.meta.setdefault("unspecified_iterator_methods", []).append({"file": fspec.path, "fn": u_})
             if not whole and not any(k for _, k, _ in chosen):
                 continue
             if not whole and trait is None:
